@@ -587,7 +587,48 @@ def check_range(model: Model, report: Report, rule: str) -> None:
     report.touched("selectors.IndexSelector.__init__", "selectors.SliceSelector.__init__", "selectors.SliceSelector._check_range")
 
 
+def check_registry_owned(model: Model, report: Report, rule: str) -> bool:
+    """The registry the type checks consult belongs to the environment: it is an object the constructor creates for
+    this instance.  A class-level or module-level dict is shared by every environment (and filled by each one's
+    setup), so which queries one environment accepts would depend on what was registered through another."""
+    eci = model.cls("environment.JSONPathEnvironment")
+    cell = "registry:created-per-environment"
+
+    def body(it: Interp) -> Any:
+        n0 = it.ctx.new_id()
+        ci = eci
+        env = it.instantiate(ci, [], {}, None)
+        return env, it, n0
+
+    ok = True
+    for run in paths(model, body):
+        if run.kind == "raise":
+            report.fail(rule, eci.qualname, cell, f"constructing an environment raises {run.exc_name()}", file=eci.module.relpath, line=eci.node.lineno)
+            return False
+        env, it, n0 = run.value
+        reg = env.attrs.get("function_extensions")
+        prob = None
+        if reg is None:
+            shared = it.host.class_attr(eci, "function_extensions", None, None)
+            prob = "function_extensions is not an attribute the constructor sets on the instance" + (": the registry is the class-level object shared by every environment" if shared is not None else "")
+        elif not isinstance(reg, PyDict):
+            prob = f"function_extensions is {describe(reg)!r}, not a dict created by the constructor"
+        elif any(v is reg for v in it.class_attr_cache.values()) or any(v is reg for v in it.global_cache.values()):
+            prob = "function_extensions is bound to a class-level / module-level dict: the registry is shared by every environment"
+        if prob:
+            ok = False
+            report.fail(rule, eci.qualname, cell, prob + "; a function registered, replaced or removed through one environment changes which queries another accepts", file=eci.module.relpath, line=eci.node.lineno, what=cell)
+            break
+    if ok:
+        report.ok(rule, eci.qualname, cell)
+    return ok
+
+
 def check(model: Model, report: Report) -> None:
+    report.rule("R05.0", "the function registry consulted by the type checks is a dict the constructor creates for this environment (not a class-level or module-level object shared between environments)")
+    if not check_registry_owned(model, report, "R05.0"):
+        report.not_decided += ["R05.1-R05.8 skipped: they are stated over an environment's own registry"]
+        return
     report.rule("R05.1", "well-typedness table: parameter type x argument class (RFC 9535 2.4.3), for arbitrary registered signatures (probe functions)")
     report.rule("R05.2", "argument count must equal parameter count")
     report.rule("R05.3", "position typing through the interpreted parser: test positions (top, under !, beside && / ||) and comparison operands x operand class")
@@ -604,6 +645,10 @@ def check(model: Model, report: Report) -> None:
     from . import _lexrules
 
     _lexrules.lexical_layer(model, report, "b-only", "R05", only=("L3",))
+    report.rule("R05.L12", "a call of a registered function is recognised as a call whatever its (RFC) name: C03's rule L12")
+    from . import _lexstates
+
+    _lexstates.check_function_dispatch(model, report, "R05.L12")
     report.rule("R05.8", "a parenthesised argument is a LogicalType expression: accepted only for LogicalType parameters and only if it is a test expression; a parenthesised literal or ValueType call is refused for every parameter type")
     check_parenthesised_arguments(model, report, "R05.8")
     check_range(model, report, "R05.6")
